@@ -5,8 +5,6 @@ NOT_APPLICABLE = {
            'beyond those claimed under C01/C06.',
     'C37': 'SCC pipelines: behavioural equivalence of long transformation chains; not a code-shape fact.',
     'C40': 'Idempotence is equality of the outputs of two runs; not decidable from code shape.',
-    'C41': 'Well-formedness after every transformation lives in runtime scope chains; a generic undefined-name '
-           'lint relabelled as this property would be dishonest.',
 }
 
 ALL_IDS = [f'C{i:02d}' for i in range(1, 45)]
